@@ -1,5 +1,5 @@
 import contextlib
-from datetime import datetime
+from datetime import datetime, timedelta
 from typing import TYPE_CHECKING, Any, Optional
 
 from scriptplan.core.property import AttributeBase
@@ -369,7 +369,7 @@ class TaskScenario(ScenarioData):
             # So we want end time between (successor_earliest - maxgap_hours) and (successor_earliest - gap_hours)
             # Ideally, end exactly at successor_earliest - gap_hours to minimize gap
 
-            desired_end = successor_earliest - timedelta(hours=gap_hours)
+            desired_end = self._shiftByHours(successor_earliest, -gap_hours)
 
             # Work backwards from desired_end to find required start
             # For effort-based tasks, we need 'effort' hours of work before desired_end
@@ -502,7 +502,7 @@ class TaskScenario(ScenarioData):
                                 gap_hours = self._parse_duration(gapduration, calendar=True)
                                 from datetime import timedelta
 
-                                dep_time = dep_time + timedelta(hours=gap_hours)
+                                dep_time = self._shiftByHours(dep_time, gap_hours)
                             elif gaplength:
                                 # gaplength is working time - need to find next working slot after gap
                                 gap_hours = self._parse_duration(gaplength)
@@ -580,7 +580,7 @@ class TaskScenario(ScenarioData):
                                     gap_hours = self._parse_duration(gapduration, calendar=True)
                                     from datetime import timedelta
 
-                                    pred_start = pred_start - timedelta(hours=gap_hours)
+                                    pred_start = self._shiftByHours(pred_start, -gap_hours)
                                 if pred_start < latest_end:
                                     latest_end = pred_start
 
@@ -602,7 +602,7 @@ class TaskScenario(ScenarioData):
                             if gap_hours:
                                 from datetime import timedelta
 
-                                succ_start = succ_start - timedelta(hours=gap_hours)
+                                succ_start = self._shiftByHours(succ_start, -gap_hours)
                         if succ_start and succ_start < latest_end:
                             latest_end = succ_start
 
@@ -954,6 +954,15 @@ class TaskScenario(ScenarioData):
         """
         end_time, _ = self._calculatePreciseEndTimeAndRelease(required_effort, effort_before_slot, forward)
         return end_time
+
+    @staticmethod
+    def _shiftByHours(date: datetime, hours: float) -> datetime:
+        """date + hours; a gap that leads beyond the calendar ends at the calendar's edge
+        (the task then simply does not fit), it does not raise."""
+        try:
+            return date + timedelta(hours=hours)
+        except OverflowError:
+            return datetime.max.replace(microsecond=0) if hours > 0 else datetime.min
 
     def _parse_duration(self, duration_str: Any, calendar: bool = False) -> float:
         """
